@@ -25,10 +25,16 @@ pub fn run(tier: Tier, seed: u64, replay: Option<String>) -> i32 {
     ctx.assumptions = vec![
         "[[ ]] groups are generated in SEQUENCE only (lexer/set.rs has no group alternative: such input is Err, outside the premise)".into(),
         "the #[non_exhaustive] of a hoisted group struct is not judged (not a type of the source)".into(),
+        "TypeScript backend: only the index signature of SEQUENCE / SET types with a marker is judged here (C18's clause; EXTENSIBILITY IMPLIED is not judged there)".into(),
     ];
     let e = |m: &ModuleSet| match crate::props::c02::eval(m, "C05") {
-        Verdict::Pass { classes, .. } => {
+        Verdict::Pass { mut classes, .. } => {
             let nontrivial = classes.iter().any(|c| c == "extension_marker" || c == "ext_implied");
+            // the TypeScript backend: an index signature exactly on the SEQUENCE / SET types with a marker
+            if let Some((key, what)) = crate::props::c18::ts_clause_failure(m, &["index-signature"]) {
+                return Verdict::Fail { key: format!("ts:{key}"), finding: None, what: format!("TypeScript backend: {what}"), observed: serde_json::json!(null), nontrivial: true };
+            }
+            classes.push("backend:typescript (index signature)".into());
             Verdict::Pass { nontrivial, classes }
         }
         other => other,
